@@ -120,4 +120,35 @@ func c10(r *Run) {
 			r.check(n == 1, "C10.R4", "PreExecutor:single-clock", r.at(w, c), "time.Now called once", "time.Now is called more than once")
 		}
 	}
+	// R5: who may admit. Transactions enter the mempool through Submit (which runs the admission checks) or are put back
+	// by the builder / the rejected-block handler; a put-back outside the builder has to be pruned against the last
+	// accepted timestamp, because the accepted sibling has already pruned the mempool
+	r.rule("C10.R5", "K3", "mempool.Add outside VM.Submit is followed by a prune against the last accepted block's timestamp", 2)
+	nAdd := 0
+	for _, fn := range w.FnsInPkg(H + "/vm") {
+		adds := findEffects(fn, "call (*internal/mempool.Mempool).Add(*")
+		if len(adds) == 0 {
+			continue
+		}
+		name := short(fnName(fn))
+		if name == "(*vm.VM).Submit" {
+			nAdd++
+			r.ok("C10.R5", name+":admission-path", w.rel(fn.Pos()), "admission through Submit (checked by R4)")
+			continue
+		}
+		for _, a := range adds {
+			nAdd++
+			okk := false
+			for _, pr := range findEffects(fn, "call (*internal/mempool.Mempool).SetMinTimestamp(*, *, (*vm.VM).LastAcceptedBlock(*)#0.Block.Tmstmp)") {
+				if found, _ := pathExists(after(a.Ins), isInstr(pr.Ins), nil, nil); found {
+					okk = true
+				}
+			}
+			r.check(okk, "C10.R5", name+":re-admission-pruned", r.at(w, a.Ins), "", "transactions are put back into the mempool without the admission checks and without pruning against the last accepted timestamp: an expired transaction is admitted again")
+		}
+	}
+	if nAdd < 2 {
+		r.missing("C10.R5", "mempool-add-sites", "expected the Submit path and the rejected-block handler")
+	}
+
 }
